@@ -17,9 +17,14 @@
    layer.  Trig(...) evaluates, when an operation is issued, which documented
    deviation it may trigger; `dev` accumulates them.  The invariants are
    checked under dev = {} (TLC proves the list complete for the bound: outside
-   the triggers the implementation model equals the ideal).  Directory copies
-   are not part of this module's operation set (every directory copy is inside
-   D_DirCopy; it is demonstrated by a fixed witness in the harness). *)
+   the triggers the implementation model equals the ideal).  A directory copy
+   that succeeds is always inside D_DirCopy (the journal holds only the
+   destination path and Commit transfers files, so the copied tree never
+   reaches the remote) and, when the source directory exists in the buffer,
+   possibly inside D_SplitCopy (children that only the remote has are not
+   copied); the implementation layer models it for every conflict-free
+   destination (a destination whose existing nodes clash in kind with the
+   copied ones makes the result depend on the walk order: not enabled). *)
 EXTENDS FsTree, TLC, Json
 
 CONSTANTS Names, Data, MaxDepth, MaxOps, MaxCommits, WithFault, Emit
@@ -64,6 +69,8 @@ Trig(name, p, q, res, idealOut) ==
  \cup (IF name \in {"remove", "removeall"} /\ (RemoteHas(p) \/ Under(remote, p) # {}) THEN {"D_RemoveRemote"} ELSE {})
  \cup (IF name \in {"remove", "removeall"} /\ \E x \in wr \cup mk : IsPrefixOf(p, x) THEN {"D_OrderLost"} ELSE {})
  \cup (IF res # OK /\ name \in {"write", "wstream", "mkdir", "copyfile"} THEN {"D_FailedJournaled"} ELSE {})
+ \cup (IF name = "copydir" /\ res = OK THEN {"D_DirCopy"} ELSE {})
+ \cup (IF name = "copydir" /\ res = OK /\ IsExist(buffer, p) /\ \E x \in Under(remote, p) : x \notin DOMAIN buffer THEN {"D_SplitCopy"} ELSE {})
 
 Init == /\ remote \in RemoteInits /\ remote0 = remote /\ ideal = remote
         /\ buffer = EmptyTree /\ rm = {} /\ rmAll = {} /\ mk = {} /\ wr = {}
@@ -111,6 +118,23 @@ CCopyFile(s, d) ==
             /\ LET o == The(WriteFile(buffer, d, Src(s)[s])) IN buffer' = o.t /\ Rec("copyfile", s, d, "", o.res, IdealCopyFile(s, d))
     /\ UNCHANGED <<rm, rmAll, mk>>
 
+\* CopyDirectory: refused without journaling unless the source side holds a directory; then the destination is
+\* journaled as ONE write and Copier walks the source side into the buffer (MkdirAll of the destination, then every
+\* directory and file beneath the source; an existing file is overwritten, an existing directory kept)
+Disjoint(s, d) == ~IsPrefixOf(s, d) /\ ~IsPrefixOf(d, s)
+IdealCopyDir(s, d) == IF IsExist(ideal, d) THEN O(ideal, ERR) ELSE The(CopyOp(ideal, s, d, "dir"))
+CopyDirFits(ts, s, d) == /\ NoFileIn(buffer, Prefixes(d))
+                         /\ \A x \in Under(ts, s) : LET y == Rebase(x, s, d) IN y \in DOMAIN buffer => ((buffer[y] = "D") = (ts[x] = "D"))
+CCopyDir(s, d) ==
+    /\ Idle /\ Disjoint(s, d)
+    /\ IF ~IsDir(Src(s), s)
+       THEN /\ UNCHANGED <<wr, buffer>> /\ Rec("copydir", s, d, "", ERR, IdealCopyDir(s, d))
+       ELSE /\ CopyDirFits(Src(s), s, d)
+            /\ wr' = wr \cup {d}
+            /\ buffer' = Ext(MkDirs(buffer, Prefixes(d)), GraftMap(Src(s), s, d))
+            /\ Rec("copydir", s, d, "", OK, IdealCopyDir(s, d))
+    /\ UNCHANGED <<rm, rmAll, mk>>
+
 \* ------------------------------------------------------------------ Commit
 \* A run is [r |-> remote, left |-> calls left before the injected failure (0 = none), ok |-> no error so far].
 Call(run, newRemote, genuineOk) ==          \* one mutating remote call
@@ -151,13 +175,14 @@ Commit(k) ==
     /\ UNCHANGED <<buffer, rm, rmAll, mk, wr, remote0, ideal, dev, nops>>
 
 Ops == [name : {"write", "wstream"}, p : Paths, d : Data] \cup [name : {"mkdir", "remove", "removeall"}, p : Paths]
-       \cup { o \in [name : {"copyfile"}, p : Paths, q : Paths] : o.p # o.q }   \* a file is never copied onto itself
+       \cup { o \in [name : {"copyfile", "copydir"}, p : Paths, q : Paths] : o.p # o.q }   \* a file is never copied onto itself
        \* (Copier opens the reader and then the writer of the SAME in-memory file: self-deadlock, finding D_SelfCopyDeadlock of C04)
 Do(op) == CASE op.name \in {"write", "wstream"} -> CWrite(op.name, op.p, op.d)
             [] op.name = "mkdir" -> CMkdir(op.p)
             [] op.name = "remove" -> CRemove(op.p)
             [] op.name = "removeall" -> CRemoveAll(op.p)
             [] op.name = "copyfile" -> CCopyFile(op.p, op.q)
+            [] op.name = "copydir" -> CCopyDir(op.p, op.q)
 EmitOp == Emit => PrintT(ToJson([k |-> "cache", remote0 |-> TJ(remote0), hist |-> hist', commit |-> FALSE,
                                   remote |-> TJ(remote'), buffer |-> TJ(buffer'), rm |-> rm', rmAll |-> rmAll', mk |-> mk', wr |-> wr',
                                   ideal |-> TJ(ideal'), dev |-> dev',
